@@ -63,59 +63,6 @@ theorem buildMessage_ext (pick : Pick) (s : State) (ticket : Nat) (tx : Tx) (siz
       exact ⟨h3.trans e4.toHist, fun r hg => e4.rfw (r3 r hg)⟩
     · exact ⟨h3, r3⟩
 
-theorem buildWith_ext (pick : Pick) (s : State) (tx : Tx) (size : Nat) : Ext pick s (buildWith pick s tx size) := by
-  unfold buildWith
-  simp only
-  have e0 : Ext pick s ({ s with nextTicket := s.nextTicket + 1 } : State) := Ext.fields pick rfl rfl rfl rfl
-  split
-  · obtain ⟨h, r⟩ := buildMessage_ext pick ({ s with nextTicket := s.nextTicket + 1 } : State) s.nextTicket tx 0
-    exact ⟨e0.toHist.trans h, fun x => r (e0.rfw x) (by intro h'; exact absurd h' (Nat.lt_irrefl 0))⟩
-  · have e1 := allocStep_ext pick ({ s with nextTicket := s.nextTicket + 1 } : State) (.alloc s.peer size s.nextTicket)
-    split
-    · next hc =>
-      obtain ⟨h, r⟩ := buildMessage_ext pick
-        (State.allocStep pick ({ s with nextTicket := s.nextTicket + 1 } : State) (.alloc s.peer size s.nextTicket)).1 s.nextTicket tx size
-      refine ⟨(e0.toHist.trans e1.toHist).trans h, fun x => r (e1.rfw (e0.rfw x)) ?_⟩
-      intro _
-      refine ⟨size, ?_⟩
-      have hc' : (Alloc.step pick s.alloc (.alloc s.peer size s.nextTicket)).2.contains
-          (Alloc.Event.granted s.peer s.nextTicket size) = true := hc
-      have hmem : Alloc.Event.granted s.peer s.nextTicket size ∈ (Alloc.step pick s.alloc (.alloc s.peer size s.nextTicket)).2 := by
-        simpa using hc'
-      show Event.mem (.granted s.peer s.nextTicket size) ∈ s.log ++ (Alloc.step pick s.alloc (.alloc s.peer size s.nextTicket)).2.map Event.mem
-      exact List.mem_append_right _ (List.mem_map.mpr ⟨_, hmem, rfl⟩)
-    · refine (e0.trans e1).trans ?_
-      refine ⟨⟨rfl, ⟨[], rfl, by simp [Alloc.run]⟩, ⟨[], by simp⟩⟩, ?_⟩
-      intro r
-      refine ⟨r.built, ?_⟩
-      intro w hw hans
-      rcases List.mem_append.mp hw with hw | hw
-      · exact r.answered w hw hans
-      · simp at hw; subst hw; cases hans
-
-theorem build_ext (pick : Pick) (s : State) (tx : Tx) : Ext pick s (s.build pick tx) := by
-  rw [build_eq]; split
-  · exact Ext.refl pick s
-  · exact buildWith_ext _ _ _ _
-
-theorem wake_ext (pick : Pick) (s : State) (t : Nat) : Ext pick s (s.wake pick t) := by
-  unfold State.wake
-  cases hf : s.waiters.find? (fun w => w.ticket == t && w.answer.isSome) with
-  | none => exact Ext.refl pick s
-  | some w =>
-    simp only
-    have hwm : w ∈ s.waiters := List.mem_of_find?_eq_some hf
-    have e0 : Ext pick s ({ s with waiters := s.waiters.filter (·.ticket != w.ticket) } : State) := by
-      refine ⟨⟨rfl, ⟨[], rfl, by simp [Alloc.run]⟩, ⟨[], by simp⟩⟩, ?_⟩
-      intro r
-      exact ⟨r.built, fun x hx hans => r.answered x (List.mem_filter.mp hx).1 hans⟩
-    split
-    · next hans =>
-      have hans' : w.answer = some true := by simpa using hans
-      obtain ⟨h, r⟩ := buildMessage_ext pick ({ s with waiters := s.waiters.filter (·.ticket != w.ticket) } : State) w.ticket w.tx w.size
-      exact ⟨e0.toHist.trans h, fun x => r (e0.rfw x) (fun _ => x.answered w hwm hans')⟩
-    · exact e0.trans (emit_ext pick _ _ (by intro e he; simp at he; subst he; rfl) (by intro e he; simp at he; subst he; rfl))
-
 /-! ## the queue goroutine -/
 
 theorem extract_ext (pick : Pick) (s : State) : Ext pick s s.extract.1 := by
@@ -178,6 +125,71 @@ theorem drain_ext (pick : Pick) : ∀ (fuel : Nat) (s : State), Ext pick s (Stat
         simp only
         exact ((e0.trans (publishError_ext pick s' m)).trans (closeTopic_ext pick _ _)).trans (drain_ext pick fuel _)
 
+/-- `buildMessage` as seen by callers -/
+theorem buildMsg_ext (pick : Pick) (s : State) (ticket : Nat) (tx : Tx) (size : Nat) :
+    Hist pick s (s.buildMsg pick ticket tx size) ∧
+    (RFW s → (size > 0 → ∃ a, Event.mem (.granted s.peer ticket a) ∈ s.log) →
+      RFW (s.buildMsg pick ticket tx size)) := by
+  obtain ⟨h, r⟩ := buildMessage_ext pick s ticket tx size
+  unfold State.buildMsg
+  split
+  · have e := drain_ext pick 1 (s.buildMessage pick ticket tx size)
+    exact ⟨h.trans e.toHist, fun x hg => e.rfw (r x hg)⟩
+  · exact ⟨h, r⟩
+
+theorem buildWith_ext (pick : Pick) (s : State) (tx : Tx) (size : Nat) : Ext pick s (buildWith pick s tx size) := by
+  unfold buildWith
+  simp only
+  have e0 : Ext pick s ({ s with nextTicket := s.nextTicket + 1 } : State) := Ext.fields pick rfl rfl rfl rfl
+  split
+  · obtain ⟨h, r⟩ := buildMsg_ext pick ({ s with nextTicket := s.nextTicket + 1 } : State) s.nextTicket tx 0
+    exact ⟨e0.toHist.trans h, fun x => r (e0.rfw x) (by intro h'; exact absurd h' (Nat.lt_irrefl 0))⟩
+  · have e1 := allocStep_ext pick ({ s with nextTicket := s.nextTicket + 1 } : State) (.alloc s.peer size s.nextTicket)
+    split
+    · next hc =>
+      obtain ⟨h, r⟩ := buildMsg_ext pick
+        (State.allocStep pick ({ s with nextTicket := s.nextTicket + 1 } : State) (.alloc s.peer size s.nextTicket)).1 s.nextTicket tx size
+      refine ⟨(e0.toHist.trans e1.toHist).trans h, fun x => r (e1.rfw (e0.rfw x)) ?_⟩
+      intro _
+      refine ⟨size, ?_⟩
+      have hc' : (Alloc.step pick s.alloc (.alloc s.peer size s.nextTicket)).2.contains
+          (Alloc.Event.granted s.peer s.nextTicket size) = true := hc
+      have hmem : Alloc.Event.granted s.peer s.nextTicket size ∈ (Alloc.step pick s.alloc (.alloc s.peer size s.nextTicket)).2 := by
+        simpa using hc'
+      show Event.mem (.granted s.peer s.nextTicket size) ∈ s.log ++ (Alloc.step pick s.alloc (.alloc s.peer size s.nextTicket)).2.map Event.mem
+      exact List.mem_append_right _ (List.mem_map.mpr ⟨_, hmem, rfl⟩)
+    · refine (e0.trans e1).trans ?_
+      refine ⟨⟨rfl, ⟨[], rfl, by simp [Alloc.run]⟩, ⟨[], by simp⟩⟩, ?_⟩
+      intro r
+      refine ⟨r.built, ?_⟩
+      intro w hw hans
+      rcases List.mem_append.mp hw with hw | hw
+      · exact r.answered w hw hans
+      · simp at hw; subst hw; cases hans
+
+theorem build_ext (pick : Pick) (s : State) (tx : Tx) : Ext pick s (s.build pick tx) := by
+  rw [build_eq]; split
+  · exact Ext.refl pick s
+  · exact buildWith_ext _ _ _ _
+
+theorem wake_ext (pick : Pick) (s : State) (t : Nat) : Ext pick s (s.wake pick t) := by
+  unfold State.wake
+  cases hf : s.waiters.find? (fun w => w.ticket == t && w.answer.isSome) with
+  | none => exact Ext.refl pick s
+  | some w =>
+    simp only
+    have hwm : w ∈ s.waiters := List.mem_of_find?_eq_some hf
+    have e0 : Ext pick s ({ s with waiters := s.waiters.filter (·.ticket != w.ticket) } : State) := by
+      refine ⟨⟨rfl, ⟨[], rfl, by simp [Alloc.run]⟩, ⟨[], by simp⟩⟩, ?_⟩
+      intro r
+      exact ⟨r.built, fun x hx hans => r.answered x (List.mem_filter.mp hx).1 hans⟩
+    split
+    · next hans =>
+      have hans' : w.answer = some true := by simpa using hans
+      obtain ⟨h, r⟩ := buildMsg_ext pick ({ s with waiters := s.waiters.filter (·.ticket != w.ticket) } : State) w.ticket w.tx w.size
+      exact ⟨e0.toHist.trans h, fun x => r (e0.rfw x) (fun _ => x.answered w hwm hans')⟩
+    · exact e0.trans (emit_ext pick _ _ (by intro e he; simp at he; subst he; rfl) (by intro e he; simp at he; subst he; rfl))
+
 theorem run_ext (pick : Pick) (s : State) (pw : Bool) : Ext pick s (s.run pick pw) := by
   obtain ⟨peer, maxRetries, builders, nextTopic, token, done, sender, pc, closedStreams, waiters,
     nextTicket, topics, pubClosed, alloc, log⟩ := s
@@ -217,13 +229,7 @@ theorem run_ext (pick : Pick) (s : State) (pw : Bool) : Ext pick s (s.run pick p
               ({ (if s1.sender = true then s1.emit [Event.senderClosed] else s1) with pc := .exiting } : State) :=
             Ext.fields pick rfl rfl rfl rfl
           exact (h1.trans e).trans e'
-        split
-        · have e0 : Ext pick (⟨peer, maxRetries, builders, nextTopic, token, done, sender, .idle, closedStreams, waiters,
-              nextTicket, topics, pubClosed, alloc, log⟩ : State)
-              (⟨peer, maxRetries, builders, nextTopic, false, done, sender, .idle, closedStreams, waiters,
-              nextTicket, topics, pubClosed, alloc, log⟩ : State) := Ext.fields pick rfl rfl rfl rfl
-          exact key _ _ (e0.trans (drain_ext pick _ _))
-        · exact key _ _ (Ext.refl pick _)
+        exact key _ _ (drain_ext pick _ _)
       · exact Ext.refl pick _
   | opening m r => exact Ext.refl pick _
   | sending m i => exact Ext.refl pick _
@@ -255,12 +261,11 @@ theorem ack_ext (pick : Pick) (s : State) (ok : Bool) : Ext pick s (s.ack pick o
       nextTicket, topics, pubClosed, alloc, log⟩ : State) (.releasePeer peer)
     generalize (State.allocStep pick (⟨peer, maxRetries, builders, nextTopic, token, done, sender, .exiting, closedStreams, waiters,
       nextTicket, topics, pubClosed, alloc, log⟩ : State) (.releasePeer peer)).1 = s1 at e1
-    have e2 := pubShutdown_ext pick s1
-    have e3 : Ext pick s1.pubShutdown (s1.pubShutdown.emit [Event.exitCallback]) :=
+    have e3 : Ext pick s1 (s1.emit [Event.exitCallback]) :=
       emit_ext pick _ [Event.exitCallback] (by intro e he; simp at he; subst he; rfl) (by intro e he; simp at he; subst he; rfl)
-    have e4 : Ext pick (s1.pubShutdown.emit [Event.exitCallback]) ({ s1.pubShutdown.emit [Event.exitCallback] with pc := .exited } : State) :=
+    have e4 : Ext pick (s1.emit [Event.exitCallback]) ({ s1.emit [Event.exitCallback] with pc := .exited } : State) :=
       Ext.fields pick rfl rfl rfl rfl
-    exact ((e1.trans e2).trans e3).trans e4
+    exact (e1.trans e3).trans e4
   | opening m r =>
     cases r with
     | none =>
